@@ -33,6 +33,8 @@ def cases(draw, max_n=40):
             "cov": draw(st.integers(0, 3)) == 0, "clean": draw(st.sampled_from([True, True, True, False])),
             "t_ref": draw(st.sampled_from(["default", "default", "false", "time"])),
             "t_ref_val": gens.rounded(t0 + draw(gens.fl(-10, 10)), 9),
+            # overall size of the uncertainties (sub-m/s precision given in km/s up to huge values)
+            "err_scale": draw(st.sampled_from([1.0, 1.0, 1e-6, 1e-4, 1e3])),
             "bad": {}}
     nbad = draw(st.integers(0, min(4, n)))
     for _ in range(nbad):
@@ -65,14 +67,15 @@ def build(case):
     n = case["n"]
     t = np.array(case["t"], dtype=float)
     tag = np.arange(n, dtype=float) + 1.0
-    sig = 1.0 + 0.001 * tag
+    sc_ = float(case.get("err_scale", 1.0))
+    sig = sc_ * (1.0 + 0.001 * tag)
     rv = tag.copy()
     bad_rows = set()
     if case["cov"]:
         err = np.diag(sig ** 2)
         for i in range(n):
             for j in range(i):
-                err[i, j] = err[j, i] = 1e-3 * (tag[i] + tag[j]) / (2.0 * n)
+                err[i, j] = err[j, i] = sc_ ** 2 * 0.3 * (1.0 + 1e-3 * (tag[i] + tag[j])) / n
     else:
         err = sig.copy()
     for key, tok in case["bad"].items():
@@ -139,7 +142,7 @@ def check_obs(case, d, ref, keep, what):
     for k in range(len(d)):
         s = sigs[k]
         if np.isfinite(s):
-            i = int(round((s - 1.0) / 0.001)) - 1
+            i = int(round((s / float(case.get("err_scale", 1.0)) - 1.0) / 0.001)) - 1
         elif np.isfinite(rvv[k]):
             i = int(round(rvv[k])) - 1
         else:
@@ -196,9 +199,13 @@ def body_factory(ctx):
             with ctx.sut("ivar"):
                 iv = data.ivar
             if case["cov"]:
-                want = np.linalg.inv(np.asarray(data.rv_err.value))
-                if not np.allclose(np.asarray(iv.value), want, rtol=1e-10, atol=0) or not iv.unit.is_equivalent(1 / ref["eu"] ** 2):
-                    raise Violation("ivar is not the inverse covariance")
+                cov_ = np.asarray(data.rv_err.value)
+                prod = np.asarray(iv.value) @ cov_
+                if np.shape(iv.value) != cov_.shape or np.max(np.abs(prod - np.eye(len(cov_)))) > 1e-8 \
+                        or not iv.unit.is_equivalent(1 / ref["eu"] ** 2):
+                    raise Violation("ivar is not the inverse covariance (ivar @ cov != identity)",
+                                    max_dev=float(np.max(np.abs(prod - np.eye(len(cov_))))) if np.shape(iv.value) == cov_.shape else None,
+                                    err_scale=case.get("err_scale"))
             else:
                 want = 1.0 / np.asarray(data.rv_err.value) ** 2
                 if not np.allclose(np.asarray(iv.to_value(1 / ref["eu"] ** 2)), want, rtol=1e-12, atol=0):
